@@ -367,7 +367,7 @@ func (c15) Exec(sc *sim.Scenario, env *sim.Env) *sim.Violation {
 	sim.Activate(env)
 	defer sim.Deactivate()
 	st := env.Stats
-	env.SetWatchdog(uint64(len(sc.Ops)+4) * 400000)
+	env.SetWatchdog(uint64(len(sc.Ops)+4) * 8000000)
 	capacity := int(sc.C("cap"))
 	if capacity < 0 {
 		capacity = 0
@@ -380,6 +380,7 @@ func (c15) Exec(sc *sim.Scenario, env *sim.Env) *sim.Violation {
 	m := newAsmModel(true, capacity, true)
 	refusedSoFar := false
 	var seg cloneSeg
+	seg.Nested = sc.Seed&8 != 0
 	endSeg := func(i int) *sim.Violation {
 		if !seg.active() {
 			return nil
